@@ -702,6 +702,12 @@ func runC14() {
 	if !m.WaitConnected(5 * time.Minute) {
 		simrt.Failf("mesh-did-not-reconnect", "configured peers did not reconnect after the last fault", "edges=%v", m.Edges)
 	}
+	// The connects, resets and replays above ran under whatever scheduling the
+	// run drew, starvation included. The observed phase gives every receiver a
+	// bounded time per announcement; that is a statement about agents that are
+	// being scheduled (an agent kept off the CPU for seconds at every few hundred
+	// steps falls behind 500-route announcements sent every 5 s without bound).
+	simrt.EndStarvation()
 	if simrt.Chance(1, 2, "tight") {
 		// the replays of the last reconnect are immediately followed by the
 		// observed phase: the very next periodic announcements count
@@ -1487,44 +1493,53 @@ func checkPreference(m *Mesh, shared, when string) {
 		if !nd.Running {
 			continue
 		}
-		var held []RouteView
-		own := false
-		for _, rv := range m.RoutesAt(i) {
-			if rv.Table == "cidr" && rv.Key == shared {
-				if rv.Origin == nd.ID {
-					own = true
-				} else {
-					held = append(held, rv)
+		snapshot := func() (held []RouteView, own bool, desc string) {
+			for _, rv := range m.RoutesAt(i) {
+				if rv.Table == "cidr" && rv.Key == shared {
+					if rv.Origin == nd.ID {
+						own = true
+					} else {
+						held = append(held, rv)
+						desc += " [" + m.RouteStr(rv) + "]"
+					}
 				}
 			}
+			return
 		}
-		if own || len(held) < 2 {
-			continue
-		}
-		best := len(held[0].Path)
-		varied := false
-		for _, h := range held {
-			if len(h.Path) != best {
-				varied = true
+		// The table snapshot and the lookup are two calls; announcements keep
+		// arriving. The lookup is judged against a table that was the same
+		// before and after it (a few attempts, then the agent is skipped).
+		for attempt := 0; attempt < 4; attempt++ {
+			held, own, desc := snapshot()
+			if own || len(held) < 2 {
+				break
 			}
-			if len(h.Path) < best {
-				best = len(h.Path)
-			}
-		}
-		if !varied {
-			continue
-		}
-		r := nd.A.VerifRouteManager().Lookup(net.ParseIP("10.250.1.1"))
-		if r == nil {
-			simrt.Failf("route-not-learned", "shared prefix not learned", "%s %s", nd.Name, when)
-		}
-		simrt.Probe("c13_near_far_compared")
-		if len(r.Path) != best {
-			desc := ""
+			best := len(held[0].Path)
+			varied := false
 			for _, h := range held {
-				desc += " [" + m.RouteStr(h) + "]"
+				if len(h.Path) != best {
+					varied = true
+				}
+				if len(h.Path) < best {
+					best = len(h.Path)
+				}
 			}
-			simrt.Failf("farther-exit-preferred", "lookup prefers a farther exit for the same prefix", "%s: %s holds%s but lookup returns origin %s with a %d-hop path", when, nd.Name, desc, m.NameOf(r.OriginAgent), len(r.Path))
+			if !varied {
+				break
+			}
+			r := nd.A.VerifRouteManager().Lookup(net.ParseIP("10.250.1.1"))
+			if _, _, after := snapshot(); after != desc {
+				simrt.Probe("c13_table_changed_during_lookup")
+				continue
+			}
+			if r == nil {
+				simrt.Failf("route-not-learned", "shared prefix not learned", "%s %s", nd.Name, when)
+			}
+			simrt.Probe("c13_near_far_compared")
+			if len(r.Path) != best {
+				simrt.Failf("farther-exit-preferred", "lookup prefers a farther exit for the same prefix", "%s: %s holds%s but lookup returns origin %s with a %d-hop path", when, nd.Name, desc, m.NameOf(r.OriginAgent), len(r.Path))
+			}
+			break
 		}
 	}
 }
